@@ -84,11 +84,14 @@ func init() {
 			x.Data["d"] = d
 			for i, pat := range strings.Split(p["pat"], ",") {
 				id := uint32(10 + i)
-				ds, order, gap := pat[0], pat[1], ms(pat[2:])
+				ds, order, gap, start := parsePat(pat)
 				db, ddom := m.side(ds)
 				ab, adom := m.side(other(ds))
 				nonce := uint32(0xabc00 + i)
 				d.goIn(adom, fmt.Sprintf("accept%d", id), func() {
+					if start > 0 {
+						x.Pause(start)
+					}
 					if order == 'D' {
 						x.Pause(gap)
 					}
@@ -136,6 +139,9 @@ func init() {
 					x.Obs("accept%d ok", id)
 				})
 				d.goIn(ddom, fmt.Sprintf("dial%d", id), func() {
+					if start > 0 {
+						x.Pause(start)
+					}
 					if order == 'A' {
 						x.Pause(gap)
 					}
@@ -192,7 +198,7 @@ func init() {
 			if x.TimeDevs == 0 {
 				for i, pat := range strings.Split(p["pat"], ",") {
 					id := 10 + i
-					if ms(pat[2:]) < 5000 {
+					if _, _, g, _ := parsePat(pat); g < 5*time.Second {
 						if e, ok := x.Data[fmt.Sprintf("aerr%d", id)]; ok {
 							x.Fail("T", "Accept(%d) failed inside the pending window (gap %s): %v", id, pat[2:], e)
 						}
